@@ -188,13 +188,20 @@ struct TDef { const char* name; Kind kind; std::function<void(thdm::Mass_basis&,
 static std::vector<TDef> thdm_defects() {
    std::vector<TDef> d;
    d.push_back({"tanb=0", INPUT, [](thdm::Mass_basis& b, SM&) { b.tan_beta = 0; }, false});
-   d.push_back({"tanb<0", INPUT, [](thdm::Mass_basis& b, SM&) { b.tan_beta = -b.tan_beta; }, false});
+   d.push_back({"tanb<0", INPUT, [](thdm::Mass_basis& b, SM&) { b.tan_beta = -std::fabs(b.tan_beta); }, false});
    d.push_back({"mh>mH", INPUT, [](thdm::Mass_basis& b, SM&) { std::swap(b.mh, b.mH); b.mh *= 1.01; }, false});
    d.push_back({"|sba|>1", INPUT, [](thdm::Mass_basis& b, SM&) { b.sin_beta_minus_alpha = 1.0000001 * (b.sin_beta_minus_alpha < 0 ? -1 : 1) * 1.5; }, false});
-   d.push_back({"mh<0", INPUT, [](thdm::Mass_basis& b, SM&) { b.mh = -b.mh; }, false});
-   d.push_back({"mH<0", INPUT, [](thdm::Mass_basis& b, SM&) { b.mH = -b.mH; }, false});
-   d.push_back({"mA<0", INPUT, [](thdm::Mass_basis& b, SM&) { b.mA = -b.mA; }, false});
-   d.push_back({"mHp<0", INPUT, [](thdm::Mass_basis& b, SM&) { b.mHp = -b.mHp; }, false});
+   // just beyond the boundary of the admissible range
+   d.push_back({"|sba|>1(by 1 ulp)", INPUT, [](thdm::Mass_basis& b, SM&) { b.sin_beta_minus_alpha = (b.sin_beta_minus_alpha < 0 ? -1 : 1) * std::nextafter(1.0, 2.0); }, false});
+   d.push_back({"|sba|>1(by 1e-12)", INPUT, [](thdm::Mass_basis& b, SM&) { b.sin_beta_minus_alpha = (b.sin_beta_minus_alpha < 0 ? -1 : 1) * (1 + 1e-12); }, false});
+   d.push_back({"|sba|>1(by 1e-9)", INPUT, [](thdm::Mass_basis& b, SM&) { b.sin_beta_minus_alpha = (b.sin_beta_minus_alpha < 0 ? -1 : 1) * (1 + 1e-9); }, false});
+   d.push_back({"mh>mH(by 1 ulp)", INPUT, [](thdm::Mass_basis& b, SM&) { b.mh = std::nextafter(b.mH, 1e300); }, false});
+   d.push_back({"tanb<0(-1e-300)", INPUT, [](thdm::Mass_basis& b, SM&) { b.tan_beta = -1e-300; }, false});
+   d.push_back({"mA<0(-1e-300)", INPUT, [](thdm::Mass_basis& b, SM&) { b.mA = -1e-300; }, false});
+   d.push_back({"mh<0", INPUT, [](thdm::Mass_basis& b, SM&) { b.mh = -std::fabs(b.mh); }, false});
+   d.push_back({"mH<0", INPUT, [](thdm::Mass_basis& b, SM&) { b.mH = -std::fabs(b.mH); }, false});
+   d.push_back({"mA<0", INPUT, [](thdm::Mass_basis& b, SM&) { b.mA = -std::fabs(b.mA); }, false});
+   d.push_back({"mHp<0", INPUT, [](thdm::Mass_basis& b, SM&) { b.mHp = -std::fabs(b.mHp); }, false});
    d.push_back({"MW>=MZ", INPUT, [](thdm::Mass_basis&, SM& s) { s.set_mw(s.get_mz() * 1.01); }, false});
    d.push_back({"MW=0", INPUT, [](thdm::Mass_basis&, SM& s) { s.set_mw(0); }, false});
    d.push_back({"MZ=0", INPUT, [](thdm::Mass_basis&, SM& s) { s.set_mz(0); }, false});
